@@ -209,11 +209,11 @@ def callMethod (c : Cfg) (site : Snap) (s : EState) (recv : Val) (f : String) (a
           if args.isEmpty then (.ok (.int .int (nodeLen n).get!), s) else (evalErr "function Len requires no argument", s)
         else if f == "Append" then (unmodelled "Append", s)
         else (evalErr "not supported for array", s)
-      | .goMap | .jObj =>
+      | .goMap =>
         if f == "Len" then
           if args.isEmpty then (.ok (.int .int (nodeLen n).get!), s) else (evalErr "function Len requires no argument", s)
-        else if n.cls == .jObj then (unmodelled "method on JSON object", s)
         else (evalErr "not supported for map", s)
+      | .jObj => (unmodelled "method on JSON object", s)
       | .goStruct =>
         match c.methods f s.ncalls s.st recv args with
         | .noMethod => (evalErr "have no function named", s)
@@ -240,60 +240,70 @@ def foldF (f : Float → Float → Bool) : List Val → Option UInt64
           | some b => go (if f (Float.ofBits b) (Float.ofBits acc) then b else acc) ws
       go b0 rest
 
-/-- BuiltInFunctions, called through reflection: wrong arity or argument type is a panic -/
-def callBuiltin (c : Cfg) (s : EState) (f : String) (args : List Val) : R Val × EState :=
-  let s := s.push (.builtin f args)
-  let bad : R Val × EState := (panicErr "reflect: Call with wrong argument", s)
-  if args.any (· == .invalid) then bad else
+def badCall : R Val := panicErr "reflect: Call with wrong argument"
+
+/-- the side-effect-free built-ins (BuiltInFunctions.go); wrong arity or argument type is a panic
+    raised by reflect.Value.Call -/
+def pureBuiltin (st : Store) (f : String) (args : List Val) : R Val :=
   match f, args with
-  | "Complete", [] => (.ok .invalid, { s with complete := true })
-  | "Complete", _ => bad
-  | "Retract", [.str n] => (.ok .invalid, { s with retracted := n :: s.retracted })
-  | "Retract", _ => bad
-  | "Forget", [.str n] => (.ok .invalid, resetName c.wm n s)
-  | "Forget", _ => bad
-  | "Changed", [.str n] => (.ok .invalid, resetName c.wm n s)
-  | "Changed", _ => bad
-  | "Log", [.str _] => (.ok .invalid, s)
-  | "Log", _ => bad
-  | "StringContains", [.str a, .str b] => (.ok (.bool (strContains a b)), s)
-  | "StringContains", _ => bad
+  | "Log", [.str _] => .ok .invalid
+  | "Log", _ => badCall
+  | "StringContains", [.str a, .str b] => .ok (.bool (strContains a b))
+  | "StringContains", _ => badCall
   | "IsNil", [v] =>
     match v with
-    | .nilptr => (.ok (.bool true), s)
-    | .ref p => match s.st.get p with
-      | some n => match n with
-        | .struct _ => (.ok (.bool false), s)
-        | _ => (.ok (.bool false), s)
-      | none => (unmodelled "dangling reference", s)
-    | .time _ => (.ok (.bool false), s)
-    | _ => (panicErr "reflect: call of reflect.Value.IsNil on scalar Value", s)
-  | "IsNil", _ => bad
+    | .nilptr => .ok (.bool true)
+    | .ref p => match st.get p with
+      | some _ => .ok (.bool false)
+      | none => unmodelled "dangling reference"
+    | .time _ => .ok (.bool false)
+    | _ => panicErr "reflect: call of reflect.Value.IsNil on scalar Value"
+  | "IsNil", _ => badCall
   | "IsZero", [v] =>
     match v with
-    | .nilptr => (.ok (.bool true), s)
-    | .str x => (.ok (.bool x.isEmpty), s)
-    | .int _ i => (.ok (.bool (i == 0)), s)
-    | .uint _ n => (.ok (.bool (n == 0)), s)
-    | .float _ b => (.ok (.bool (Float.ofBits b == 0)), s)
-    | .bool _ => (.ok (.bool false), s)
-    | .time _ => (unmodelled "IsZero(time)", s)
-    | .ref p => match s.st.get p with
-      | some (.ptr _) => (.ok (.bool false), s)
-      | some (.struct _) => (.ok (.bool false), s)
-      | some _ => (.ok (.bool false), s)
-      | none => (unmodelled "dangling reference", s)
-    | .invalid => bad
-  | "IsZero", _ => bad
+    | .nilptr => .ok (.bool true)
+    | .str x => .ok (.bool x.isEmpty)
+    | .int _ i => .ok (.bool (i == 0))
+    | .uint _ n => .ok (.bool (n == 0))
+    | .float _ b => .ok (.bool (Float.ofBits b == 0))
+    | .bool _ => .ok (.bool false)
+    | .time _ => unmodelled "IsZero(time)"
+    | .ref p => match st.get p with
+      | some (.iface _) => unmodelled "IsZero(interface)"
+      | some _ => .ok (.bool false)
+      | none => unmodelled "dangling reference"
+    | .invalid => badCall
+  | "IsZero", _ => badCall
   | "Max", as => match foldF (· > ·) as with
-    | some b => (.ok (.float .f64 b), s)
-    | none => bad
+    | some b => .ok (.float .f64 b)
+    | none => badCall
   | "Min", as => match foldF (· < ·) as with
-    | some b => (.ok (.float .f64 b), s)
-    | none => bad
-  | "Abs", [.float .f64 b] => (.ok (.float .f64 (Float.abs (Float.ofBits b)).toBits), s)
-  | "Abs", _ => bad
-  | _, _ => (unmodelled s!"built-in {f}", s)
+    | some b => .ok (.float .f64 b)
+    | none => badCall
+  | "Abs", [.float .f64 b] => .ok (.float .f64 (Float.abs (Float.ofBits b)).toBits)
+  | "Abs", _ => badCall
+  | _, _ => unmodelled s!"built-in {f}"
+
+/-- built-ins that act on the engine state -/
+def isEffectful (f : String) : Bool := f == "Complete" || f == "Retract" || f == "Forget" || f == "Changed"
+
+/-- BuiltInFunctions, called through reflection -/
+def callBuiltin (c : Cfg) (s : EState) (f : String) (args : List Val) : R Val × EState :=
+  let s := s.push (.builtin f args)
+  if args.any (· == .invalid) then (badCall, s) else
+  if f == "Complete" then
+    match args with
+    | [] => (.ok .invalid, { s with complete := true })
+    | _ => (badCall, s)
+  else if f == "Retract" then
+    match args with
+    | [.str n] => (.ok .invalid, { s with retracted := n :: s.retracted })
+    | _ => (badCall, s)
+  else if f == "Forget" || f == "Changed" then
+    match args with
+    | [.str n] => (.ok .invalid, resetName c.wm n s)
+    | _ => (badCall, s)
+  else (pureBuiltin s.st f args, s)
 
 -- evaluation ------------------------------------------------------------------------------------
 
@@ -311,82 +321,79 @@ def memoPutA (c : Cfg) (k : Snap) (v : Val) (s : EState) : EState :=
 def memoGetE (c : Cfg) (k : Snap) (s : EState) : Option Val := if c.memo then snapGet k s.memoE else none
 def memoGetA (c : Cfg) (k : Snap) (s : EState) : Option Val := if c.memo then snapGet k s.memoA else none
 
+/-- every successful evaluation of a memoisable node is remembered (`e.Value = val; e.Evaluated = true`) -/
+def finishE (c : Cfg) (k : Snap) : R Val × EState → R Val × EState
+  | (.ok v, s) => (.ok v, memoPutE c k v s)
+  | (.error e, s) => (.error e, s)
+
+def finishA (c : Cfg) (k : Snap) : R Val × EState → R Val × EState
+  | (.ok v, s) => (.ok v, memoPutA c k v s)
+  | (.error e, s) => (.error e, s)
+
+/-- short-circuit decision of `&&` / `||` once the left operand is known -/
+def shortCircuit (st : Store) (op : BinOp) (lr : R Val) : Option (R Val) :=
+  if op == .and || op == .or then
+    match lr with
+    | .error _ => some (evalErr "left hand expression error")
+    | .ok lv =>
+      match logicSingle st lv with
+      | some b => if (op == .and && !b) || (op == .or && b) then some (.ok (.bool b)) else none
+      | none => none
+  else none
+
+/-- combine two evaluated operands (`lerr`/`rerr` checks, then the operator) -/
+def combine (c : Cfg) (st : Store) (op : BinOp) (lr rr : R Val) : R Val :=
+  if isPanic rr then rr else
+  match lr, rr with
+  | .error _, _ => evalErr "left hand expression error"
+  | _, .error _ => evalErr "right hand expression error"
+  | .ok lv, .ok rv => evalBinOp c st op lv rv
+
+def negResult (neg : Bool) : R Val → R Val
+  | .ok v => .ok (negate neg v)
+  | .error e => .error e
+
 mutual
   def evalE (c : Cfg) (s : EState) : Expr → R Val × EState
     | .atom a =>
       let k := snapE (.atom a)
       match memoGetE c k s with
       | some v => (.ok v, s)
-      | none =>
-        let s := s.push (.evalE k)
-        match evalA c s a with
-        | (.ok v, s1) => (.ok v, memoPutE c k v s1)
-        | (.error e, s1) => (.error e, s1)
+      | none => finishE c k (evalA c (s.push (.evalE k)) a)
     | .paren neg e =>
       let k := snapE (.paren neg e)
       match memoGetE c k s with
       | some v => (.ok v, s)
       | none =>
-        let s := s.push (.evalE k)
-        match evalE c s e with
-        | (.ok v, s1) => let v' := negate neg v; (.ok v', memoPutE c k v' s1)
-        | (.error e, s1) => (.error e, s1)
+        let (r, s1) := evalE c (s.push (.evalE k)) e
+        finishE c k (negResult neg r, s1)
     | .bin op l r =>
       let k := snapE (.bin op l r)
       match memoGetE c k s with
       | some v => (.ok v, s)
       | none =>
-        let s := s.push (.evalE k)
-        let (lr, s1) := evalE c s l
+        let (lr, s1) := evalE c (s.push (.evalE k)) l
         if isPanic lr then (lr, s1) else
-        -- short circuit
-        let sc : Option (R Val × EState) :=
-          if op == .and || op == .or then
-            match lr with
-            | .error _ => some (evalErr "left hand expression error", s1)
-            | .ok lv =>
-              match logicSingle s1.st lv with
-              | some b =>
-                if (op == .and && !b) || (op == .or && b) then some (.ok (.bool b), memoPutE c k (.bool b) s1)
-                else none
-              | none => none
-          else none
-        match sc with
-        | some res => res
+        match shortCircuit s1.st op lr with
+        | some res => finishE c k (res, s1)
         | none =>
           let (rr, s2) := evalE c s1 r
-          if isPanic rr then (rr, s2) else
-          match lr, rr with
-          | .error _, _ => (evalErr "left hand expression error", s2)
-          | _, .error _ => (evalErr "right hand expression error", s2)
-          | .ok lv, .ok rv =>
-            match evalBinOp c s2.st op lv rv with
-            | .ok v => (.ok v, memoPutE c k v s2)
-            | .error e => (.error e, s2)
+          finishE c k (combine c s2.st op lr rr, s2)
 
   def evalA (c : Cfg) (s : EState) : Atom → R Val × EState
     | .const k0 =>
       let k := snapA (.const k0)
       match memoGetA c k s with
       | some v => (.ok v, s)
-      | none =>
-        let s := s.push (.evalA k)
-        match constVal k0 with
-        | .ok v => (.ok v, memoPutA c k v s)
-        | .error e => (.error e, s)
+      | none => finishA c k (constVal k0, s.push (.evalA k))
     | .var v =>
       let k := snapA (.var v)
       match memoGetA c k s with
       | some x => (.ok x, s)
-      | none =>
-        let s := s.push (.evalA k)
-        match evalV c s v with
-        | (.ok x, s1) => (.ok x, memoPutA c k x s1)
-        | (.error e, s1) => (.error e, s1)
+      | none => finishA c k (evalV c (s.push (.evalA k)) v)
     | .call f args =>
       -- never memoised at atom level
-      let s := s.push (.evalA (snapA (.call f args)))
-      match evalArgs c s args with
+      match evalArgs c (s.push (.evalA (snapA (.call f args)))) args with
       | (.ok vs, s1) => callBuiltin c s1 f vs
       | (.error e, s1) => (.error e, s1)
     | .neg a =>
@@ -394,41 +401,30 @@ mutual
       match memoGetA c k s with
       | some x => (.ok x, s)
       | none =>
-        let s := s.push (.evalA k)
-        match evalA c s a with
-        | (.ok v, s1) => let v' := negate true v; (.ok v', memoPutA c k v' s1)
-        | (.error e, s1) => (.error e, s1)
+        let (r, s1) := evalA c (s.push (.evalA k)) a
+        finishA c k (negResult true r, s1)
     | .meth recv f args =>
       let k := snapA (.meth recv f args)
       match memoGetA c k s with
       | some x => (.ok x, s)
       | none =>
-        let s := s.push (.evalA k)
-        match evalA c s recv with
+        match evalA c (s.push (.evalA k)) recv with
         | (.error e, s1) => (.error e, s1)
         | (.ok rv, s1) =>
           match evalArgs c s1 args with
           | (.error e, s2) => (.error e, s2)
-          | (.ok vs, s2) =>
-            match callMethod c k s2 rv f vs with
-            | (.ok v, s3) => (.ok v, memoPutA c k v s3)
-            | (.error e, s3) => (.error e, s3)
+          | (.ok vs, s2) => finishA c k (callMethod c k s2 rv f vs)
     | .member recv n =>
       let k := snapA (.member recv n)
       match memoGetA c k s with
       | some x => (.ok x, s)
       | none =>
-        let s := s.push (.evalA k)
-        match evalA c s recv with
+        match evalA c (s.push (.evalA k)) recv with
         | (.error e, s1) => (.error e, s1)
-        | (.ok rv, s1) =>
-          match readField s1.st rv n with
-          | .ok v => (.ok v, memoPutA c k v s1)
-          | .error e => (.error e, s1)
+        | (.ok rv, s1) => finishA c k (readField s1.st rv n, s1)
     | .sel recv idx =>
       -- never memoised at atom level
-      let s := s.push (.evalA (snapA (.sel recv idx)))
-      match evalA c s recv with
+      match evalA c (s.push (.evalA (snapA (.sel recv idx)))) recv with
       | (.error e, s1) => (.error e, s1)
       | (.ok rv, s1) =>
         match evalE c s1 idx with
@@ -464,6 +460,16 @@ end
 
 -- actions ---------------------------------------------------------------------------------------
 
+/-- Variable.resetTarget: the container below the outermost selector of the path, if any -/
+def Var.outerContainer : Var → Option Var
+  | .root _ => none
+  | .field v _ => v.outerContainer
+  | .index v _ => match v.outerContainer with
+    | some w => some w
+    | none => some v
+
+def Var.resetKey (v : Var) : Var := v.outerContainer.getD v
+
 /-- Variable.Assign -/
 def assignVar (c : Cfg) (s : EState) (target : Var) (new : Val) : R Unit × EState :=
   match target with
@@ -480,7 +486,7 @@ def assignVar (c : Cfg) (s : EState) (target : Var) (new : Val) : R Unit × ESta
       match writeField c.cells s1.st pv f new with
       | .ok st' =>
         let s2 := { s1 with st := st', log := .write (snapV target) :: s1.log }
-        (.ok (), if c.memo then resetVariable c.wm (snapV target) s2 else s2)
+        (.ok (), if c.memo then resetVariable c.wm (snapV target.resetKey) s2 else s2)
       | .error e => (.error e, s1)
   | .index v e =>
     match evalV c s v with
@@ -492,8 +498,7 @@ def assignVar (c : Cfg) (s : EState) (target : Var) (new : Val) : R Unit × ESta
         match writeIndex c.cells s2.st pv iv new with
         | .ok st' =>
           let s3 := { s2 with st := st', log := .write (snapV target) :: s2.log }
-          -- reset by the container variable
-          (.ok (), if c.memo then resetVariable c.wm (snapV v) s3 else s3)
+          (.ok (), if c.memo then resetVariable c.wm (snapV target.resetKey) s3 else s3)
         | .error e => (.error e, s2)
 
 def AssignOp.binop : AssignOp → Option BinOp
